@@ -671,11 +671,44 @@ pub fn trace_of<const M: usize>(cap: usize, hist: &[Op]) -> String {
     t
 }
 
+/// Calls on unrelated graphs, chosen to leave traces in any hidden state: a merge that fails, a
+/// merge that succeeds, a slice, a script with variables, a save and a load of a larger image.
+pub fn unrelated_calls<const N: usize>(round: usize) {
+    let _ = guarded(|| {
+        let mut a: Sodg<N> = Sodg::empty(12);
+        for v in 0..6 {
+            a.add(v);
+        }
+        a.bind(0, 1, lab(0));
+        a.bind(1, 2, lab(0));
+        a.bind(3, 4, lab(0));
+        a.put(2, &crate::menu::dat(6));
+        let mut b: Sodg<N> = Sodg::empty(12);
+        b.add(0);
+        b.add(7);
+        // fails: vertices 3, 4, 5 (and 0 when started below the root) are never reached
+        let _ = b.merge(&a, 0, if round % 2 == 0 { 0 } else { 1 });
+        let _ = b.merge(&a, 7, 3);
+        let _ = a.slice(0).map(|s| s.len());
+        let mut c: Sodg<N> = Sodg::empty(12);
+        let _ = sodg::Script::from_str("ADD($x); ADD($y); BIND($x, $y, foo); PUT($y, CA-FE);").deploy_to(&mut c);
+        let f = thread_file("unrelated");
+        if a.save(&f).is_ok() {
+            let _ = Sodg::<N>::load(&f).map(|g| g.len());
+        }
+        let _ = a.inspect(0);
+        let _ = a.next_id();
+    });
+}
+
 pub fn lockstep_probe<const N: usize>(cfg: &HxCfg, hist: &dyn Fn() -> Vec<Op>, out: &mut Vec<Finding>, counters: &mut BTreeMap<&'static str, u64>) {
     let tags: &[&'static str] = &["C19"];
     let h = hist();
     let base = trace_of::<N>(cfg.cap, &h);
     for i in 0..cfg.probes.rerun {
+        // calls on unrelated objects in between must not matter: state hidden in the thread or the
+        // process (scratch buffers, caches) would make the replay come out differently
+        unrelated_calls::<N>(i);
         let again = trace_of::<N>(cfg.cap, &h);
         bump(counters, "reruns_compared", 1);
         if again != base {
